@@ -88,9 +88,17 @@ func (c18Engine) Gen(g *Gen) {
 	}
 	for i := 0; i < n; i++ {
 		l := 1 + g.Rng.Intn(14)
+		deep := i%10 == 0 // deep stacks: 15-40 frames, mostly pushes
+		if deep {
+			l = 15 + g.Rng.Intn(26)
+		}
 		var ops []c18Op
 		for j := 0; j < l; j++ {
-			switch g.Rng.Intn(6) {
+			k := g.Rng.Intn(6)
+			if deep && k >= 4 && g.Rng.Intn(4) > 0 {
+				k = g.Rng.Intn(3)
+			}
+			switch k {
 			case 0, 1:
 				ops = append(ops, c18Op{"push", toB(pick(g.Rng, prefixes))})
 			case 2, 3:
@@ -158,6 +166,7 @@ func (c18Engine) Run(raw json.RawMessage) (interface{}, error) {
 	}
 	snaps := []c18Snap{}
 	var saved []pgs.BuildContext // every context value handed out, to be asked again at the end
+	probe := 0
 	observe := func(ctx pgs.BuildContext) c18Snap {
 		drain()
 		ctx.Log("m")
@@ -165,6 +174,18 @@ func (c18Engine) Run(raw json.RawMessage) (interface{}, error) {
 		ctx.Logf("f")
 		l2 := strings.TrimSuffix(drain(), "\n")
 		id, _ := ctx.Parameters().Int("id")
+		// "the parameters are the root's": the very map, so what is written through the context is
+		// read in the root's map and the other way round
+		probe++
+		ctx.Parameters().SetInt("probe", probe)
+		if got, _ := params.Int("probe"); got != probe {
+			id = 900001
+		}
+		probe++
+		params.SetInt("probe", probe)
+		if got, _ := ctx.Parameters().Int("probe"); got != probe {
+			id = 900002
+		}
 		return c18Snap{toB(ctx.OutputPath()), toB(ctx.JoinPath("x", "../y")), toB(l1), toB(l2), id}
 	}
 	for _, op := range in.Ops {
@@ -184,8 +205,13 @@ func (c18Engine) Run(raw json.RawMessage) (interface{}, error) {
 		}
 		if mod != nil {
 			// the module base must keep answering through itself
+			// (otherwise the snapshot carries the sentinel 900003 in place of the parameters)
 			if next != pgs.BuildContext(mod) {
-				return map[string]interface{}{"module_returned_other_context": true}, nil
+				sn := observe(mod)
+				sn.Params = 900003
+				snaps = append(snaps, sn)
+				saved = append(saved, mod)
+				continue
 			}
 		}
 		ctx = next
